@@ -112,7 +112,7 @@ pub fn run_c01(out: &mut Out, tier: &str, seed: u64) {
     }
     let maxlen = 320usize;
     let mut lens: Vec<usize> = (0..=maxlen).collect();
-    lens.extend_from_slice(&[1024, 4096]);
+    lens.extend_from_slice(&[1024, 4095, 4096, 4097, 8191, 8193, 12288, 16385, 20000]);
     if thorough { lens.push(65536); }
     let kn = keys(&mut rng, if thorough { 5 } else { 3 });
     for (ki, (k, n)) in kn.iter().enumerate() {
@@ -298,17 +298,23 @@ pub fn tamper(out: &mut Out, tier: &str, seed: u64, c02: bool, c17: bool) {
         }
         let _ = prop;
     };
-    for len in 0..=maxlen {
+    // every length up to maxlen with every mutation; a few lengths around the 4096-byte marks with a sample of them
+    let tamper_lens: Vec<usize> = (0..=maxlen).chain([4095usize, 4096, 4097, 8193, if thorough { 70001 } else { 12301 }]).collect();
+    for len in tamper_lens {
+        let big = len > maxlen;
         let m = rng.bytes(len);
         let sbx = sodium::secretbox_easy(&m, &n, &k);
         let bbx = sodium::box_easy(&m, &n, &pkb, &ska).unwrap();
         let sealed = sodium::box_seal(&m, &pkb);
         // mutation lists: (description, mutated box, mutated nonce, mutated key)
         let mut muts: Vec<(String, Vec<u8>, [u8; 24], [u8; 32])> = vec![];
-        for bit in 0..(sbx.len() * 8) { let mut c = sbx.clone(); c[bit / 8] ^= 1 << (bit % 8); muts.push((format!("{} bit {}", if bit < 128 { "tag" } else { "body" }, bit), c, n, k)); }
-        for bit in 0..192 { let mut nn = n; nn[bit / 8] ^= 1 << (bit % 8); muts.push((format!("nonce bit {}", bit), sbx.clone(), nn, k)); }
-        for bit in 0..256 { let mut kk = k; kk[bit / 8] ^= 1 << (bit % 8); muts.push((format!("key bit {}", bit), sbx.clone(), n, kk)); }
-        for t in 0..sbx.len() { muts.push((format!("truncated to {}", t), sbx[..t].to_vec(), n, k)); }
+        let nbits = sbx.len() * 8;
+        let bit_list: Vec<usize> = if !big { (0..nbits).collect() } else { vec![0, 77, 127, 128, 129, 128 + 8 * 4095 + 3, 128 + 8 * 4096, nbits / 2, nbits - 9, nbits - 1].into_iter().filter(|b| *b < nbits).collect() };
+        for bit in bit_list { let mut c = sbx.clone(); c[bit / 8] ^= 1 << (bit % 8); muts.push((format!("{} bit {}", if bit < 128 { "tag" } else { "body" }, bit), c, n, k)); }
+        for bit in (0..192).step_by(if big { 61 } else { 1 }) { let mut nn = n; nn[bit / 8] ^= 1 << (bit % 8); muts.push((format!("nonce bit {}", bit), sbx.clone(), nn, k)); }
+        for bit in (0..256).step_by(if big { 97 } else { 1 }) { let mut kk = k; kk[bit / 8] ^= 1 << (bit % 8); muts.push((format!("key bit {}", bit), sbx.clone(), n, kk)); }
+        let trunc_list: Vec<usize> = if !big { (0..sbx.len()).collect() } else { vec![0, 15, 16, 17, 4096, 4112, sbx.len() - 1].into_iter().filter(|t| *t < sbx.len()).collect() };
+        for t in trunc_list { muts.push((format!("truncated to {}", t), sbx[..t].to_vec(), n, k)); }
         for e in (1..=17).chain([64usize]) { let mut c = sbx.clone(); c.extend(rng.bytes(e)); muts.push((format!("extended by {}", e), c, n, k)); let mut c = sbx.clone(); c.extend(vec![0u8; e]); muts.push((format!("extended-zero by {}", e), c, n, k)); }
         // untampered first
         let auth: Vec<(String, Vec<u8>, [u8; 24], [u8; 32])> = vec![("untampered".into(), sbx.clone(), n, k)];
@@ -385,9 +391,12 @@ pub fn tamper(out: &mut Out, tier: &str, seed: u64, c02: bool, c17: bool) {
         }
         // public-key box: tag/body bits, nonce, truncation, extension; sealed: epk bits too
         let mut bm: Vec<(String, Vec<u8>, [u8; 24])> = vec![("untampered".into(), bbx.clone(), n)];
-        for bit in 0..(bbx.len() * 8) { let mut c = bbx.clone(); c[bit / 8] ^= 1 << (bit % 8); bm.push((format!("{} bit {}", if bit < 128 { "tag" } else { "body" }, bit), c, n)); }
-        for bit in (0..192).step_by(if thorough { 1 } else { 5 }) { let mut nn = n; nn[bit / 8] ^= 1 << (bit % 8); bm.push((format!("nonce bit {}", bit), bbx.clone(), nn)); }
-        for t in 0..bbx.len() { bm.push((format!("truncated to {}", t), bbx[..t].to_vec(), n)); }
+        let bbits = bbx.len() * 8;
+        let bbit_list: Vec<usize> = if !big { (0..bbits).collect() } else { vec![0, 127, 128, 128 + 8 * 4095 + 3, 128 + 8 * 4096, bbits / 2, bbits - 1].into_iter().filter(|b| *b < bbits).collect() };
+        for bit in bbit_list { let mut c = bbx.clone(); c[bit / 8] ^= 1 << (bit % 8); bm.push((format!("{} bit {}", if bit < 128 { "tag" } else { "body" }, bit), c, n)); }
+        for bit in (0..192).step_by(if big { 67 } else if thorough { 1 } else { 5 }) { let mut nn = n; nn[bit / 8] ^= 1 << (bit % 8); bm.push((format!("nonce bit {}", bit), bbx.clone(), nn)); }
+        let btrunc: Vec<usize> = if !big { (0..bbx.len()).collect() } else { vec![0, 15, 16, 17, 4096, 4112, bbx.len() - 1].into_iter().filter(|t| *t < bbx.len()).collect() };
+        for t in btrunc { bm.push((format!("truncated to {}", t), bbx[..t].to_vec(), n)); }
         for e in [1usize, 2, 15, 16, 17, 64] { let mut c = bbx.clone(); c.extend(rng.bytes(e)); bm.push((format!("extended by {}", e), c, n)); }
         for (idx, (what, c, nn)) in bm.iter().enumerate() {
             let authentic = idx == 0;
@@ -434,8 +443,11 @@ pub fn tamper(out: &mut Out, tier: &str, seed: u64, c02: bool, c17: bool) {
             }
         }
         let mut sm: Vec<(String, Vec<u8>)> = vec![("untampered".into(), sealed.clone())];
-        for bit in 0..(sealed.len() * 8) { let mut c = sealed.clone(); c[bit / 8] ^= 1 << (bit % 8); sm.push((format!("{} bit {}", if bit < 256 { "epk" } else if bit < 384 { "tag" } else { "body" }, bit), c)); }
-        for t in 0..sealed.len() { sm.push((format!("truncated to {}", t), sealed[..t].to_vec())); }
+        let sbits = sealed.len() * 8;
+        let sbit_list: Vec<usize> = if !big { (0..sbits).collect() } else { vec![0, 255, 256, 383, 384, 384 + 8 * 4095 + 3, 384 + 8 * 4096, sbits / 2, sbits - 1].into_iter().filter(|b| *b < sbits).collect() };
+        for bit in sbit_list { let mut c = sealed.clone(); c[bit / 8] ^= 1 << (bit % 8); sm.push((format!("{} bit {}", if bit < 256 { "epk" } else if bit < 384 { "tag" } else { "body" }, bit), c)); }
+        let strunc: Vec<usize> = if !big { (0..sealed.len()).collect() } else { vec![0, 31, 32, 47, 48, 49, 4096 + 48, sealed.len() - 1].into_iter().filter(|t| *t < sealed.len()).collect() };
+        for t in strunc { sm.push((format!("truncated to {}", t), sealed[..t].to_vec())); }
         for e in [1usize, 2, 15, 16, 17, 64] { let mut c = sealed.clone(); c.extend(rng.bytes(e)); sm.push((format!("extended by {}", e), c)); }
         let kp: BoxKeyPair = BoxKeyPair::from_secret_key(StackByteArray::<32>::from(&skb));
         for (idx, (what, c)) in sm.iter().enumerate() {
